@@ -56,6 +56,12 @@ func (dm *DMap) deleteFromPreviousOwners(key string, owners []discovery.Member) 
 	// Traverse in reverse order. Except from the latest host, this one.
 	for i := len(owners) - 2; i >= 0; i-- {
 		owner := owners[i]
+		if owner.CompareByID(dm.s.rt.This()) {
+			// The background eviction also runs on the previous owners of a partition. The caller
+			// deletes the local copy itself and already holds the lock of the fragment: sending
+			// the command to this member would wait for that lock forever.
+			continue
+		}
 		cmd := protocol.NewDelEntry(dm.name, key).Command(dm.s.ctx)
 		rc := dm.s.client.Get(owner.String())
 		err := rc.Process(dm.s.ctx, cmd)
